@@ -460,13 +460,31 @@ def _layout(X, layout):
     return X
 
 
-def rel_batch(ctx, spec, X, t0, t2, layout="C", ttype="float"):
-    """Columns of one (6,K) propagation == K single propagations."""
+def _batch_events(ev, t0, t2):
+    """Fresh event objects for one propagate call: an ECI impulse in the middle, or an NTW finite burn over the middle third
+    (its thrust direction follows each state's own velocity)."""
+    if not ev:
+        return None
+    if ev == "impulse":
+        return [_null_event(t0 + 0.5 * (t2 - t0), [2e-3, -1e-3, 1.5e-3])]
+    from functools import partial
+
+    from resonaate.dynamics.integration_events.finite_thrust import ScheduledFiniteBurn, ntwBurn
+    from resonaate.physics.time.stardate import ScenarioTime
+
+    return [ScheduledFiniteBurn(start_time=ScenarioTime(t0 + (t2 - t0) / 3.0), end_time=ScenarioTime(t0 + 2.0 * (t2 - t0) / 3.0),
+                                thrust_func=partial(ntwBurn, acc_vector=np.array([0.0, 2.0e-5, 0.0])), agent_id=1)]
+
+
+def rel_batch(ctx, spec, X, t0, t2, layout="C", ttype="float", ev=None):
+    """Columns of one (6,K) propagation == K single propagations (also with a scheduled impulse / finite burn inside the call)."""
     X = np.array(X, dtype=float)
     K_ = X.shape[1]
-    w = _w("batch", spec=spec, X=X, t0=t0, t2=t2, layout=layout, ttype=ttype)
+    w = _w("batch", spec=spec, X=X, t0=t0, t2=t2, layout=layout, ttype=ttype, ev=ev)
     mon, p = _mon(spec, "batch_vs_single"), _pfx(spec)
-    Y = _propagate(ctx, spec, t0, t2, _layout(X, layout), p + "batch", w, mon, ttype)
+    if ev and t2 - t0 < 3 * TE_MIN:
+        ev = None
+    Y = _propagate(ctx, spec, t0, t2, _layout(X, layout), p + "batch", w, mon, ttype, events=_batch_events(ev, t0, t2))
     if Y is None:
         return False
     want = (6,) if K_ == 1 else (6, K_)
@@ -474,13 +492,14 @@ def rel_batch(ctx, spec, X, t0, t2, layout="C", ttype="float"):
         return True
     Y = Y.reshape(6, K_)
     for k in range(K_):
-        yk = _propagate(ctx, spec, t0, t2, X[:, k], p + "batch", w, mon, ttype)
+        yk = _propagate(ctx, spec, t0, t2, X[:, k], p + "batch", w, mon, ttype, events=_batch_events(ev, t0, t2))
         if yk is None:
             return False
-        ur, uv, nrev, e = _unit(X[:, k], t2 - t0)
+        ur, uv, nrev, e = _unit(X[:, k], t2 - t0, dense=bool(ev))
         f = 2.0 * math.sqrt(K_)  # RMS error norm over 6K components: one column may take sqrt(K) of the budget
         r = _ratio(Y[:, k], yk, f * ur, f * uv, "batch_vs_single", _jump(X[:, k], t0, t2, spec))
-        if not _close(ctx, "batch_vs_single", r, p + "batch-column-differs", f"{spec['method']} column {k} of a K={K_} ({layout}) batch over {t2 - t0:.6g} s "
+        if not _close(ctx, "batch_vs_single", r, p + "batch-column-differs" + (f"-with-{ev}" if ev else ""), f"{spec['method']} column {k} of a K={K_} ({layout}) batch over {t2 - t0:.6g} s "
+                      + (f"with a scheduled {ev} inside the call " if ev else "") + 
                       f"differs from its single propagation by {np.linalg.norm(Y[:3, k] - yk[:3]):.3e} km", w, mon):
             break
     return True
@@ -1019,7 +1038,7 @@ def _tb_case(ctx, rng, i):
         dt = min(_rand_dt(rng, x0, max_s, max_rev), (1.0 if q else 3.0) * per_min * (2.0 if kk <= 3 else 1.0))
         t2 = _end(t0, max(dt, 1.0))
         layout = rng.choice(["C", "C", "F", "strided"])
-        done = rel_batch(ctx, spec, X, t0, t2, layout, ttype)
+        done = rel_batch(ctx, spec, X, t0, t2, layout, ttype, ev=rng.choice([None, None, "impulse", "burn_ntw"]))
         key = (rel, spec["method"], kk, layout, _rnd(X), t0, t2)
         smp = {"relation": "batch vs single", "K": kk, "layout": layout, "method": spec["method"], "t0": t0, "dt": t2 - t0, "first_column": _rnd(x0)}
     elif rel in ("bulk", "bulk_event"):
@@ -1103,7 +1122,7 @@ def _sp_case(ctx, rng, i):
         X = np.column_stack([x0] + [_rand_orbit(rng) for _ in range(kk - 1)])
         if kk >= 5:
             t2 = _end(t0, min(dt, 300.0 if q else 900.0, 0.2 * per))
-        done = rel_batch(ctx, spec, X, t0, t2, rng.choice(["C", "F", "strided"]))
+        done = rel_batch(ctx, spec, X, t0, t2, rng.choice(["C", "F", "strided"]), ev=rng.choice([None, None, "impulse", "burn_ntw"]))
         key = (rel, json.dumps(spec, sort_keys=True), _rnd(X), t0, t2)
         smp = {"relation": "SP batch vs single", "spec": spec, "K": kk, "t0": t0, "dt": t2 - t0}
     elif rel == "bulk":
@@ -1221,7 +1240,7 @@ def replay(ctx, w):
     elif k == "compose":
         rel_compose(ctx, w["spec"], w["x0"], w["t0"], w["t1"], w["t2"], w.get("how", "uniform"), w.get("ttype", "float"))
     elif k == "batch":
-        rel_batch(ctx, w["spec"], w["X"], w["t0"], w["t2"], w.get("layout", "C"), w.get("ttype", "float"))
+        rel_batch(ctx, w["spec"], w["X"], w["t0"], w["t2"], w.get("layout", "C"), w.get("ttype", "float"), w.get("ev"))
     elif k == "bulk":
         rel_bulk(ctx, w["spec"], w["X"], w["times"], w.get("ttype", "float"), w.get("container", "list"), w.get("te"))
     elif k == "bulk_degenerate":
